@@ -192,7 +192,7 @@ impl SassCalculation {
                 Some(CalculationArg::Number(value)),
                 Some(CalculationArg::Number(max)),
             ) => {
-                if min.is_comparable_to(&value) && min.is_comparable_to(&max) {
+                if min.has_compatible_units(value.unit()) && min.has_compatible_units(max.unit()) {
                     if value.num <= min.num.convert(min.unit(), value.unit()) {
                         return Ok(Value::Dimension(min));
                     }
